@@ -405,10 +405,11 @@ func (mc *machine) apply(step int, op Op) error {
 			if fd.Message() != nil || fd.IsList() || fd.IsMap() {
 				return nil
 			}
-			v := model.DecodeScalar(fd, unhex(op.V))
 			mc.invalidateField(op.H, fd)
 			mc.mutated = true
-			return mc.judge(what, tri(func(s int) string { h.m[s].Set(fd, v); return "" }))
+			// every side gets its own copy of the value: a bytes value shared by the
+			// three messages would hide writes one of them makes to it in place
+			return mc.judge(what, tri(func(s int) string { h.m[s].Set(fd, model.DecodeScalar(fd, unhex(op.V))); return "" }))
 		case "setmsg":
 			if fd.Message() == nil || fd.IsList() || fd.IsMap() {
 				return nil
@@ -660,6 +661,28 @@ func (mc *machine) apply(step int, op Op) error {
 				})
 				return fmt.Sprint(seen)
 			}))
+		case "rangeread":
+			// the callback reads the OTHER fields of the message it ranges over
+			return mc.judge(what, tri(func(s int) string {
+				var parts []string
+				fds := h.m[s].Descriptor().Fields()
+				h.m[s].Range(func(rfd protoreflect.FieldDescriptor, rv protoreflect.Value) bool {
+					n := 0
+					for i := 0; i < fds.Len(); i++ {
+						if h.m[s].Has(fds.Get(i)) {
+							n++
+						}
+						_ = h.m[s].Get(fds.Get(i))
+					}
+					for i := 0; i < h.m[s].Descriptor().Oneofs().Len(); i++ {
+						_ = h.m[s].WhichOneof(h.m[s].Descriptor().Oneofs().Get(i))
+					}
+					parts = append(parts, fmt.Sprintf("%d:%d", rfd.Number(), n))
+					return true
+				})
+				sort.Strings(parts)
+				return strings.Join(parts, " ")
+			}))
 		case "rangestop":
 			// Range must stop when f returns false
 			return mc.judge(what, tri(func(s int) string {
@@ -750,8 +773,27 @@ func (mc *machine) apply(step int, op Op) error {
 				}
 				return mc.judge(what, tri(func(s int) string { h.l[s].Set(op.I, vals[s]); return "" }))
 			}
-			v := model.DecodeScalar(fd, unhex(op.V))
-			return mc.judge(what, tri(func(s int) string { h.l[s].Set(op.I, v); return "" }))
+			return mc.judge(what, tri(func(s int) string { h.l[s].Set(op.I, model.DecodeScalar(fd, unhex(op.V))); return "" }))
+		case "lcopy":
+			// append / store an element read from the same list: for bytes the two
+			// slots may then share memory, which later in-place writes must not show
+			if !h.mutable || fd.Message() != nil {
+				return nil
+			}
+			mc.mutated = true
+			return mc.judge(what, tri(func(s int) string {
+				n := h.l[s].Len()
+				if n == 0 {
+					return "empty"
+				}
+				v := h.l[s].Get(op.I % n)
+				if op.V == "set" {
+					h.l[s].Set((op.I/7)%n, v)
+				} else {
+					h.l[s].Append(v)
+				}
+				return ""
+			}))
 		case "append":
 			if !h.mutable {
 				return nil
@@ -764,8 +806,7 @@ func (mc *machine) apply(step int, op Op) error {
 				}
 				return mc.judge(what, tri(func(s int) string { h.l[s].Append(vals[s]); return "" }))
 			}
-			v := model.DecodeScalar(fd, unhex(op.V))
-			return mc.judge(what, tri(func(s int) string { h.l[s].Append(v); return "" }))
+			return mc.judge(what, tri(func(s int) string { h.l[s].Append(model.DecodeScalar(fd, unhex(op.V))); return "" }))
 		case "appendmut":
 			if !h.mutable {
 				return nil
@@ -835,8 +876,7 @@ func (mc *machine) apply(step int, op Op) error {
 				}
 				return mc.judge(what, tri(func(s int) string { h.x[s].Set(k, vals[s]); return "" }))
 			}
-			v := model.DecodeScalar(fd.MapValue(), unhex(op.V))
-			return mc.judge(what, tri(func(s int) string { h.x[s].Set(k, v); return "" }))
+			return mc.judge(what, tri(func(s int) string { h.x[s].Set(k, model.DecodeScalar(fd.MapValue(), unhex(op.V))); return "" }))
 		case "mclear":
 			if !h.mutable {
 				return nil
@@ -973,7 +1013,7 @@ func (mc *machine) drawOp(rt *rapid.T) Op {
 		op.F = int(fd.Number())
 		var choices []string
 		composite := fd.IsList() || fd.IsMap() || fd.Message() != nil
-		choices = append(choices, "has", "get", "get", "newfield", "range", "rangestop", "getunknown", "isvalid")
+		choices = append(choices, "has", "get", "get", "newfield", "range", "rangeread", "rangestop", "getunknown", "isvalid")
 		if composite && h.mutable {
 			choices = append(choices, "newdetached")
 			if hi == 0 && ((fd.IsMap() && fd.MapValue().Message() != nil) || (!fd.IsMap() && fd.Message() != nil)) {
@@ -1072,6 +1112,12 @@ func (mc *machine) drawOp(rt *rapid.T) Op {
 			choices = append(choices, "append", "append", "append", "truncate")
 			if n > 0 {
 				choices = append(choices, "lset", "lset")
+				if fd.Message() == nil {
+					choices = append(choices, "lcopy")
+					if fd.Kind() == protoreflect.BytesKind {
+						choices = append(choices, "lcopy", "lcopy")
+					}
+				}
 			}
 			if fd.Message() != nil {
 				choices = append(choices, "appendmut", "appendmut")
@@ -1079,6 +1125,9 @@ func (mc *machine) drawOp(rt *rapid.T) Op {
 		}
 		op.Op = rapid.SampledFrom(choices).Draw(rt, "op")
 		switch op.Op {
+		case "lcopy":
+			op.I = rapid.IntRange(0, 1000).Draw(rt, "from")
+			op.V = rapid.SampledFrom([]string{"append", "set"}).Draw(rt, "how")
 		case "lget", "lset":
 			op.I = rapid.IntRange(0, n-1).Draw(rt, "idx")
 		case "truncate":
